@@ -293,53 +293,86 @@ def fn_source(src, name):
     raise TranslateError("unbalanced braces in fn " + name)
 
 
-def translate(src, order):
+def sig_from_lean(text):
+    """(sig, ret) of a previously generated `def name (a : T) ... : R :=` (used when a helper can no longer be translated)"""
+    inv = {"BitVec 64": "u64", "Bool": "bool", "Board": "board", "Nat": "nat", "Dir": "dir",
+           "Option Terminal": "oterm", "Terminal": "term"}
+    first = text.split(":=", 1)[0]
+    binders = re.findall(r"\((\w+) : ([^)]+)\)", first)
+    ret = first.rsplit(")", 1)[-1] if binders else first.split(" ", 2)[-1]
+    ret = ret.strip().lstrip(":").strip()
+    sig = []
+    for n, t in binders:
+        if n == "p1_turn_to_move" and not sig:
+            sig.append("bool*")
+        else:
+            sig.append(inv[t.strip()])
+    return sig, inv[ret]
+
+
+def translate(src, order, old=None, degraded=None):
     """src: engine.rs without comments; order: list of function names, callees first.
+    old: name -> previously generated def text, used (and reported in `degraded`) for a helper
+    that is gone or no longer has a shape this translator handles.
     returns list of (name, lean_def_text)"""
     fns = {}
     out = []
+    for full in order:
+        short = full.split("::")[-1]
+        try:
+            translate_one(src, full, fns, out)
+        except (TranslateError, KeyError, IndexError, ValueError) as e:
+            if old is None or short not in old:
+                if isinstance(e, TranslateError):
+                    raise
+                raise TranslateError("%s: %r" % (short, e))
+            fns[short] = sig_from_lean(old[short])
+            out.append((short, old[short]))
+            degraded.append((short, str(e)))
+    return out
+
+
+def translate_one(src, name, fns, out):
     tmap = {"u64": "u64", "bool": "bool", "&PieceBoardState": "board", "& PieceBoardState": "board",
             "&Direction": "dir", "Option<Terminal>": "oterm"}
     lean_ty = {"u64": "BitVec 64", "bool": "Bool", "board": "Board", "nat": "Nat", "dir": "Dir",
                "oterm": "Option Terminal", "term": "Terminal"}
-    for name in order:
-        board_self = name.startswith("PieceBoardState::")
-        name = name.split("::")[-1]
-        params_src, ret_src, body = fn_source(src, name)
-        params = []
-        env = {}
-        uses_self = False
-        if board_self:
-            body = re.sub(r"\bself\b", "piece_board_self", body)
-        for p in [x.strip() for x in params_src.split(",") if x.strip()]:
-            if p in ("&self", "& self", "self"):
-                if board_self:
-                    params.append(("piece_board_self", "board"))
-                    env["piece_board_self"] = "board"
-                else:
-                    uses_self = True
-                continue
-            pn, pt = [x.strip() for x in p.split(":", 1)]
-            pt = pt.replace("& ", "&")
-            if pt not in tmap:
-                raise TranslateError("parameter type %s of %s" % (pt, name))
-            params.append((pn, tmap[pt]))
-            env[pn] = tmap[pt]
-        ret = tmap.get(ret_src.replace("& ", "&"))
-        if ret is None:
-            raise TranslateError("return type %s of %s" % (ret_src, name))
-        sig = (["bool*"] if uses_self else []) + [t for _, t in params]
-        fns[name] = (sig, ret)
-        body = re.sub(r"#\[[^\]]*\]", "", body)
-        toks = tokenize(body)
-        ps = Parser(toks, env, fns, {"p1_turn_to_move"} if uses_self else set())
-        e, t = ps.block()
-        if ps.peek() is not None:
-            raise TranslateError("trailing tokens in " + name)
-        if t == "nat" and ret == "u64":
-            e, t = "%s#64" % e, "u64"
-        if t != ret:
-            raise TranslateError("body type of %s is %s, declared %s" % (name, t, ret))
-        binders = (["(p1_turn_to_move : Bool)"] if uses_self else []) + ["(%s : %s)" % (pn, lean_ty[pt]) for pn, pt in params]
-        out.append((name, "def %s %s : %s :=\n  %s" % (name, " ".join(binders), lean_ty[ret], e)))
-    return out
+    board_self = name.startswith("PieceBoardState::")
+    name = name.split("::")[-1]
+    params_src, ret_src, body = fn_source(src, name)
+    params = []
+    env = {}
+    uses_self = False
+    if board_self:
+        body = re.sub(r"\bself\b", "piece_board_self", body)
+    for p in [x.strip() for x in params_src.split(",") if x.strip()]:
+        if p in ("&self", "& self", "self"):
+            if board_self:
+                params.append(("piece_board_self", "board"))
+                env["piece_board_self"] = "board"
+            else:
+                uses_self = True
+            continue
+        pn, pt = [x.strip() for x in p.split(":", 1)]
+        pt = pt.replace("& ", "&")
+        if pt not in tmap:
+            raise TranslateError("parameter type %s of %s" % (pt, name))
+        params.append((pn, tmap[pt]))
+        env[pn] = tmap[pt]
+    ret = tmap.get(ret_src.replace("& ", "&"))
+    if ret is None:
+        raise TranslateError("return type %s of %s" % (ret_src, name))
+    sig = (["bool*"] if uses_self else []) + [t for _, t in params]
+    fns[name] = (sig, ret)
+    body = re.sub(r"#\[[^\]]*\]", "", body)
+    toks = tokenize(body)
+    ps = Parser(toks, env, fns, {"p1_turn_to_move"} if uses_self else set())
+    e, t = ps.block()
+    if ps.peek() is not None:
+        raise TranslateError("trailing tokens in " + name)
+    if t == "nat" and ret == "u64":
+        e, t = "%s#64" % e, "u64"
+    if t != ret:
+        raise TranslateError("body type of %s is %s, declared %s" % (name, t, ret))
+    binders = (["(p1_turn_to_move : Bool)"] if uses_self else []) + ["(%s : %s)" % (pn, lean_ty[pt]) for pn, pt in params]
+    out.append((name, "def %s %s : %s :=\n  %s" % (name, " ".join(binders), lean_ty[ret], e)))
